@@ -19,7 +19,7 @@ def Kind.ofString : String → Option Kind
 structure Reading where
   h : Nat
   base : Int × Int            -- sums of the adds completed when the read started (value, count)
-  over : List (Int × Int)     -- adds that overlap the read so far
+  over : List (Nat × (Int × Int))   -- (thread, add) overlapping the read so far, latest first
 
 structure World where
   kinds : List (Nat × Kind) := []
@@ -180,6 +180,15 @@ def addP (a b : Int × Int) : Int × Int := (a.1 + b.1, a.2 + b.2)
 def lo (xs : List (Int × Int)) : Int × Int := xs.foldl (fun a x => (a.1 + min x.1 0, a.2 + min x.2 0)) (0, 0)
 def hi (xs : List (Int × Int)) : Int × Int := xs.foldl (fun a x => (a.1 + max x.1 0, a.2 + max x.2 0)) (0, 0)
 
+/-- sums of `base` + one prefix of every thread's overlapping adds (`over` in chronological order):
+what a read can return when every cell is loaded once and every contribution is stored indivisibly -/
+def reachable (base : Int × Int) (over : List (Nat × (Int × Int))) : List (Int × Int) :=
+  let threads := (over.map (·.1)).eraseDups
+  threads.foldl (fun cur t =>
+    let mine := (over.filter (·.1 == t)).map (·.2)
+    let prefixes := (List.range (mine.length + 1)).map (fun k => (mine.take k).foldl addP (0, 0))
+    (cur.flatMap (fun b => prefixes.map (addP b))).eraseDups) [base]
+
 def stepEv (w : World) (t : Nat) (ws : List String) : Except String World := do
   match ws with
   | ["tstart"] => w.threads (fun f => threadStart f t)
@@ -205,7 +214,7 @@ def stepEv (w : World) (t : Nat) (ws : List String) : Except String World := do
     let v ← pairOf k (← ints vs)
     let w := { w with inflight := (t, h, v) :: w.inflight }
     match w.reading with
-    | some r => pure (if r.h = h then { w with reading := some { r with over := v :: r.over } } else w)
+    | some r => pure (if r.h = h then { w with reading := some { r with over := (t, v) :: r.over } } else w)
     | none => pure w
   | "ret" :: "add" :: h :: rest => do
     let [h] ← nats [h] | throw "bad add"
@@ -248,23 +257,30 @@ def stepEv (w : World) (t : Nat) (ws : List String) : Except String World := do
   | ["call", "cread", h] => do
     let [h] ← nats [h] | throw "bad cread"
     if w.reading.isSome then throw "nested concurrent read"
-    let over := (w.inflight.filter (·.2.1 == h)).map (·.2.2)
+    let over := (w.inflight.filter (·.2.1 == h)).map (fun x => (x.1, x.2.2))
     pure { w with reading := some { h := h, base := w.doneOf h, over := over } }
   | "ret" :: "cread" :: h :: obs => do
     let [h] ← nats [h] | throw "bad cread"
     let r ← orErr w.reading "ret cread without call"
     if r.h ≠ h then throw "ret cread of another handle"
     let vs ← ints obs
-    let l := addP r.base (lo r.over)
-    let u := addP r.base (hi r.over)
+    let l := addP r.base (lo (r.over.map (·.2)))
+    let u := addP r.base (hi (r.over.map (·.2)))
+    let sets := reachable r.base r.over.reverse
     let k ← orErr (w.kindOf h) "cread of unknown handle"
     match k, vs with
     | .summer, [a, b] =>
-      if l.1 ≤ a ∧ a ≤ u.1 ∧ l.2 ≤ b ∧ b ≤ u.2 then pure { w with reading := none, creads := w.creads + 1 }
-      else throw s!"concurrent read of summer {h} returned ({a}, {b}), outside [{l.1}, {u.1}] x [{l.2}, {u.2}]"
+      if !(l.1 ≤ a ∧ a ≤ u.1 ∧ l.2 ≤ b ∧ b ≤ u.2) then
+        throw s!"concurrent read of summer {h} returned ({a}, {b}), outside [{l.1}, {u.1}] x [{l.2}, {u.2}]"
+      else if !sets.contains (a, b) then
+        throw s!"concurrent read of summer {h} returned ({a}, {b}): not (Σ v, Σ n) of the adds completed at the call plus a per-thread prefix of the overlapping ones — sum and count of one contribution were read apart"
+      else pure { w with reading := none, creads := w.creads + 1 }
     | _, a :: _ =>
-      if l.1 ≤ a ∧ a ≤ u.1 then pure { w with reading := none, creads := w.creads + 1 }
-      else throw s!"concurrent read of {h} returned {a}, outside [{l.1}, {u.1}] (adds completed before the read started … adds started before it ended)"
+      if !(l.1 ≤ a ∧ a ≤ u.1) then
+        throw s!"concurrent read of {h} returned {a}, outside [{l.1}, {u.1}] (adds completed before the read started … adds started before it ended)"
+      else if !(sets.any (·.1 == a)) then
+        throw s!"concurrent read of {h} returned {a}: not the adds completed at the call plus a per-thread prefix of the overlapping ones"
+      else pure { w with reading := none, creads := w.creads + 1 }
     | _, _ => throw "bad cread values"
   | _ => pure w     -- ORACLE verdicts, notes, statistics
 
